@@ -5,8 +5,12 @@ package main
 // a clock in a daylight-saving zone).
 
 import (
+	"crypto/cipher"
+	"crypto/des"
 	"crypto/rand"
+	"crypto/tls"
 	"fmt"
+	"strings"
 	"time"
 
 	"github.com/beevik/etree"
@@ -212,6 +216,540 @@ func init() {
 					c.Violate("spec", "valid-until:not-utc", "validUntil is not rendered in UTC", map[string]interface{}{"clock": now.Format(time.RFC3339)})
 				}
 			}
+		}
+	})
+}
+
+func init() {
+	// C16 (and the isolation half of C17): bodies handed to the caller stay intact while later forms are built; the form
+	// action is the CURRENTLY configured endpoint of that flow whatever the document's own Destination says.
+	extras["C16"] = append(extras["C16"], func(c *Ctx) {
+		w := getWorld()
+		n := c.N(40, 400)
+		for k := 0; k < n; k++ {
+			r := c.R
+			sp := &saml2.SAMLServiceProvider{IdentityProviderSSOURL: "https://idp.example.com/sso", IdentityProviderSLOURL: "https://idp.example.com/slo",
+				ServiceProviderIssuer: "https://sp.example.com/metadata", AssertionConsumerServiceURL: acsURL, ServiceProviderSLOURL: sloURL,
+				SPKeyStore: w.SPSign.KeyStore(), SignAuthnRequests: r.Intn(2) == 0, Clock: dsig.NewFakeClockAt(baseNow)}
+			type held struct {
+				body []byte
+				copy string
+				desc string
+			}
+			var hs []held
+			for step := 0; step < 6; step++ {
+				relay := pick(r, "", "state-"+fmt.Sprint(step), "a\"b<c>&d", "x y+z")
+				var body []byte
+				var err error
+				var desc string
+				// re-configure an endpoint between building the document and building the form
+				reconf := r.Intn(3) == 0
+				switch r.Intn(3) {
+				case 0:
+					doc, derr := sp.BuildAuthRequestDocumentNoSig()
+					if derr != nil {
+						continue
+					}
+					if reconf {
+						sp.IdentityProviderSSOURL = fmt.Sprintf("https://idp%d.example.com/sso", step)
+					}
+					body, err = sp.BuildAuthBodyPostFromDocument(relay, doc)
+					desc = "authn form, action must be " + sp.IdentityProviderSSOURL
+					if err == nil && !strings.Contains(string(body), `action="`+sp.IdentityProviderSSOURL+`"`) {
+						c.Violate("spec", "c16:action-not-the-endpoint:history", "AuthnRequest form posts to another URL than the configured SSO endpoint "+sp.IdentityProviderSSOURL+" (document built before the endpoint was re-configured)",
+							map[string]interface{}{"op": "BuildAuthBodyPostFromDocument after re-configuration", "html": string(body)})
+					}
+				case 1:
+					doc, derr := sp.BuildLogoutRequestDocumentNoSig("user@example.com", "_s1")
+					if derr != nil {
+						continue
+					}
+					if reconf {
+						sp.IdentityProviderSLOURL = fmt.Sprintf("https://idp%d.example.com/slo", step)
+					}
+					body, err = sp.BuildLogoutBodyPostFromDocument(relay, doc)
+					desc = "logout form, action must be " + sp.IdentityProviderSLOURL
+					if err == nil && !strings.Contains(string(body), `action="`+sp.IdentityProviderSLOURL+`"`) {
+						c.Violate("spec", "c16:action-not-the-endpoint:history", "LogoutRequest form posts to another URL than the configured SLO endpoint "+sp.IdentityProviderSLOURL,
+							map[string]interface{}{"op": "BuildLogoutBodyPostFromDocument after re-configuration", "html": string(body)})
+					}
+				default:
+					doc, derr := sp.BuildLogoutResponseDocumentNoSig(statusOK, "_req1")
+					if derr != nil {
+						continue
+					}
+					if reconf {
+						sp.IdentityProviderSLOURL = fmt.Sprintf("https://idp%d.example.com/slo2", step)
+					}
+					body, err = sp.BuildLogoutResponseBodyPostFromDocument(relay, doc)
+					desc = "logout response form, action must be " + sp.IdentityProviderSLOURL
+					if err == nil && !strings.Contains(string(body), `action="`+sp.IdentityProviderSLOURL+`"`) {
+						c.Violate("spec", "c16:action-not-the-endpoint:history", "LogoutResponse form posts to another URL than the configured SLO endpoint "+sp.IdentityProviderSLOURL,
+							map[string]interface{}{"op": "BuildLogoutResponseBodyPostFromDocument after re-configuration", "html": string(body)})
+					}
+				}
+				if err != nil {
+					continue
+				}
+				hs = append(hs, held{body, string(body), desc})
+				c.Eval(true, fmt.Sprintf("hold|%d|%v", step, reconf))
+				c.Count("held-bodies")
+			}
+			for i, h := range hs {
+				if string(h.body) != h.copy {
+					c.Violate("spec", "c16:returned-body-changed-later", fmt.Sprintf("POST body returned by call %d of %d (%s) changed after later forms were built", i+1, len(hs), h.desc),
+						map[string]interface{}{"op": "sequence of Build*BodyPost* calls on one SP; earlier results re-read afterwards", "was": h.copy, "now": string(h.body)})
+				}
+			}
+		}
+	})
+	extras["C17"] = append(extras["C17"], extras["C16"][len(extras["C16"])-1])
+
+	// C19: metadata follows the CURRENT field values (a field re-assigned between two calls); the SP's own logout endpoint is
+	// published on the POST binding whatever binding is configured towards the IdP.
+	extras["C19"] = append(extras["C19"], func(c *Ctx) {
+		keyA := newCert("sp-a", rsaKey("spenc"), certNB, certNA)
+		keyB := newCert("sp-b", rsaKey("other"), certNB, certNA)
+		n := c.N(40, 400)
+		for k := 0; k < n; k++ {
+			r := c.R
+			sp := &saml2.SAMLServiceProvider{ServiceProviderIssuer: "https://sp.example.com/metadata", AssertionConsumerServiceURL: acsURL, ServiceProviderSLOURL: sloURL,
+				IdentityProviderSLOBinding: pick(r, "", saml2.BindingHttpPost, saml2.BindingHttpRedirect, "urn:other"), IdentityProviderSSOBinding: pick(r, "", saml2.BindingHttpRedirect),
+				SPKeyStore: keyA.KeyStore(), Clock: dsig.NewFakeClockAt(baseNow)}
+			if r.Intn(2) == 0 {
+				sp.SPSigningKeyStore = keyA.KeyStore()
+			}
+			c.Eval(true, fmt.Sprintf("field-reassign|%s|%v", sp.IdentityProviderSLOBinding, sp.SPSigningKeyStore != nil))
+			c.Count("c19:field-reassignment-history")
+			check := func(when string, enc, sig *KeyPair) {
+				for variant := 0; variant < 2; variant++ {
+					var md *types.EntityDescriptor
+					var err error
+					if variant == 0 {
+						md, err = sp.Metadata()
+					} else {
+						md, err = sp.MetadataWithSLO(24)
+					}
+					if err != nil || md == nil || md.SPSSODescriptor == nil {
+						continue
+					}
+					replay := map[string]interface{}{"op": "Metadata/MetadataWithSLO", "history": when, "variant": variant, "idp_slo_binding": sp.IdentityProviderSLOBinding}
+					for _, kd := range md.SPSSODescriptor.KeyDescriptors {
+						if len(kd.KeyInfo.X509Data.X509Certificates) != 1 {
+							continue
+						}
+						got := kd.KeyInfo.X509Data.X509Certificates[0].Data
+						want := enc.B64()
+						if kd.Use == "signing" {
+							want = sig.B64()
+						}
+						if got != want {
+							c.Violate("spec", "c19:published-cert-not-current:"+kd.Use, "metadata publishes a "+kd.Use+" certificate that is not the currently configured one ("+when+")", replay)
+						}
+					}
+					for _, e := range md.SPSSODescriptor.SingleLogoutServices {
+						if e.Binding != saml2.BindingHttpPost || e.Location != sloURL {
+							c.Violate("spec", "c19:slo-endpoint", fmt.Sprintf("SingleLogoutService %+v: want the SP logout URL on the HTTP-POST binding", e), replay)
+						}
+					}
+					for _, e := range md.SPSSODescriptor.AssertionConsumerServices {
+						if e.Binding != saml2.BindingHttpPost || e.Location != acsURL {
+							c.Violate("spec", "c19:acs-endpoint", fmt.Sprintf("AssertionConsumerService %+v: want the ACS URL on the HTTP-POST binding", e), replay)
+						}
+					}
+				}
+			}
+			sigOf := func() *KeyPair {
+				if sp.SPSigningKeyStore != nil {
+					return keyA
+				}
+				return nil
+			}
+			s := sigOf()
+			if s == nil {
+				s = keyA
+			}
+			check("initial configuration", keyA, s)
+			// re-assign the deprecated fields directly (no setter involved)
+			sp.SPKeyStore = keyB.KeyStore()
+			s2 := keyB
+			if sp.SPSigningKeyStore != nil {
+				if r.Intn(2) == 0 {
+					sp.SPSigningKeyStore = keyB.KeyStore()
+				} else {
+					s2 = keyA
+				}
+			}
+			check("after re-assigning the key-store fields", keyB, s2)
+		}
+	})
+
+	// C12: a DEFLATE stream may itself begin with the byte '<' (or white space); the unverified decoders must enforce the
+	// limit on the whole inflated message, including what follows the root element.
+	extras["C12"] = append(extras["C12"], func(c *Ctx) {
+		w := getWorld()
+		g := &xgen{r: c.R, now: baseNow}
+		// documents with little repetition compress to dynamic-Huffman blocks whose first byte is often 0x3C
+		foundU := 0
+		tries := c.N(3000, 40000)
+		for t := 0; t < tries && foundU < c.N(12, 120); t++ {
+			n := 40 + c.R.Intn(300)
+			b := make([]byte, n)
+			alpha := 4 + c.R.Intn(40)
+			for i := range b {
+				b[i] = byte('a' + c.R.Intn(alpha)%26)
+			}
+			xml := fmt.Sprintf(`<Response xmlns="urn:oasis:names:tc:SAML:2.0:protocol" ID="_%d" Version="2.0"><Extensions>%s</Extensions></Response>`, c.R.Intn(1<<30), string(b))
+			comp := deflateBytes([]byte(xml), []int{1, 6, 9}[t%3])
+			if comp[0] != '<' && comp[0] != ' ' && comp[0] != '\n' && comp[0] != '\t' && comp[0] != '\r' {
+				continue
+			}
+			foundU++
+			c.Eval(true, fmt.Sprintf("deflate-first-byte-%q", comp[0]))
+			c.Count(fmt.Sprintf("deflate-first-byte=%q", comp[0]))
+			replay := map[string]interface{}{"op": "raw vs DEFLATE presentation (first DEFLATE byte looks like XML)", "encoded_raw": b64([]byte(xml)), "encoded_compressed": b64(comp)}
+			a, e1 := saml2.DecodeUnverifiedBaseResponse(b64([]byte(xml)))
+			b2, e2 := saml2.DecodeUnverifiedBaseResponse(b64(comp))
+			if (e1 == nil) != (e2 == nil) || (e1 == nil && (a.ID != b2.ID || a.Destination != b2.Destination)) {
+				c.Violate("spec", "md:compressed-twin-differs:first-byte", fmt.Sprintf("DecodeUnverifiedBaseResponse: compressed twin (first DEFLATE byte %q) differs from the raw one: raw=%v compressed=%v", comp[0], e1, e2), replay)
+			}
+			_, _, p1 := saml2.VerifParseResponse([]byte(xml), 0)
+			_, _, p2 := saml2.VerifParseResponse(comp, 0)
+			if (p1 == nil) != (p2 == nil) {
+				c.Violate("spec", "md:compressed-twin-differs:first-byte", fmt.Sprintf("parseResponse: compressed twin (first DEFLATE byte %q) differs from the raw one: raw=%v compressed=%v", comp[0], p1, p2), replay)
+			}
+			sk := g.newSPFor([]*KeyPair{w.IdP1}, baseNow)
+			sk.SkipSignatureValidation = true
+			_, v1 := sk.ValidateEncodedResponse(b64([]byte(xml)))
+			_, v2 := sk.ValidateEncodedResponse(b64(comp))
+			if errVal(v1) != errVal(v2) {
+				c.Violate("spec", "md:compressed-twin-differs:first-byte", fmt.Sprintf("ValidateEncodedResponse: compressed twin (first DEFLATE byte %q): raw=%v compressed=%v", comp[0], v1, v2), replay)
+			}
+		}
+		c.Count(fmt.Sprintf("first-byte-search:found=%d", foundU))
+		// over-limit messages whose excess FOLLOWS the root element (trailing white space / comment)
+		limit := int(saml2.VerifDefaultMaxDecompressedResponseSize)
+		for _, extra := range []int{1, 2, limit} {
+			for kind := 0; kind < 2; kind++ {
+				root := `<samlp:Response xmlns:samlp="urn:oasis:names:tc:SAML:2.0:protocol" ID="_pad" Version="2.0"><saml:Issuer xmlns:saml="urn:oasis:names:tc:SAML:2.0:assertion">` + idpIss + `</saml:Issuer></samlp:Response>`
+				if kind == 1 {
+					root = strings.ReplaceAll(root, "Response", "LogoutResponse")
+				}
+				pad := limit + extra - len(root)
+				msg := root + strings.Repeat(" ", pad)
+				comp := deflateBytes([]byte(msg), 1)
+				c.Eval(true, fmt.Sprintf("trailing-pad|%d|%d", extra, kind))
+				var err error
+				if kind == 0 {
+					_, err = saml2.DecodeUnverifiedBaseResponse(b64(comp))
+				} else {
+					_, err = saml2.DecodeUnverifiedLogoutResponse(b64(comp))
+				}
+				if err == nil {
+					c.Violate("spec", "dflt:over-limit-accepted:trailing", fmt.Sprintf("unverified decoder accepted a compressed message inflating to limit+%d bytes (excess after the root element)", extra),
+						map[string]interface{}{"op": "DecodeUnverified* on a message padded after its root", "inflated_size": len(msg), "limit": limit, "kind": kind})
+				}
+			}
+		}
+	})
+
+	// C09: EncryptedKey certificate texts that decode to nothing, key stores with a key but an empty certificate chain
+	extras["C09"] = append(extras["C09"], func(c *Ctx) {
+		w := getWorld()
+		for _, certText := range []string{"\n", "\r\n", " ", "\n\n  \n", "=", "AAAA", "", "&#10;"} {
+			for _, validate := range []bool{false, true} {
+				for _, storeKind := range []string{"normal", "empty-chain", "empty-der", "setter"} {
+					g := &xgen{r: c.R, now: baseNow}
+					eo := g.randEncOpts(w)
+					eo.EmbedCert = w.SPEnc
+					plain := []byte(`<saml:Assertion xmlns:saml="urn:oasis:names:tc:SAML:2.0:assertion" ID="_x" Version="2.0"/>`)
+					eaEl := encryptedAssertion(plain, *eo, "saml")
+					for _, x := range eaEl.FindElements(".//X509Certificate") {
+						if certText == "&#10;" {
+							x.SetText("\n")
+						} else {
+							x.SetText(certText)
+						}
+					}
+					rs := g.okResponseSpec(0)
+					root := buildMessage(rs)
+					root.AddChild(eaEl)
+					doc := etree.NewDocument()
+					doc.SetRoot(root)
+					raw, _ := doc.WriteToBytes()
+					sp := &saml2.SAMLServiceProvider{IDPCertificateStore: certStore(), AssertionConsumerServiceURL: acsURL, ValidateEncryptionCert: validate}
+					switch storeKind {
+					case "normal":
+						sp.SPKeyStore = w.SPEnc.KeyStore()
+					case "empty-chain":
+						sp.SPKeyStore = dsig.TLSCertKeyStore(tls.Certificate{PrivateKey: w.SPEnc.Key})
+					case "empty-der":
+						sp.SPKeyStore = dsig.TLSCertKeyStore(tls.Certificate{Certificate: [][]byte{{}}, PrivateKey: w.SPEnc.Key})
+					default:
+						sp.SetSPKeyStore(&saml2.KeyStore{Signer: w.SPEnc.Key, Cert: nil})
+					}
+					desc := fmt.Sprintf("EncryptedKey X509Certificate text %q, ValidateEncryptionCert=%v, SP key store %s", certText, validate, storeKind)
+					c.Eval(true, desc)
+					c.Count("c09:degenerate-certificates")
+					replay := map[string]interface{}{"op": "ValidateEncodedResponse / RetrieveAssertionInfo", "desc": desc, "encoded_response": b64(raw)}
+					func() {
+						defer func() {
+							if x := recover(); x != nil {
+								c.Violate("panic", "total:panic:degenerate-certificate", fmt.Sprintf("entry point panicked (%v): %s", x, desc), replay)
+							}
+						}()
+						resp, err := sp.ValidateEncodedResponse(b64(raw))
+						if (resp == nil) == (err == nil) {
+							c.Violate("spec", "total:result-xor-error", "ValidateEncodedResponse returned (nil,nil) or (non-nil,non-nil): "+desc, replay)
+						}
+						info, err2 := sp.RetrieveAssertionInfo(b64(raw))
+						if (info == nil) == (err2 == nil) {
+							c.Violate("spec", "total:result-xor-error", "RetrieveAssertionInfo returned (nil,nil) or (non-nil,non-nil): "+desc, replay)
+						}
+					}()
+				}
+			}
+		}
+	})
+}
+
+func init() {
+	// C11: every method the metadata ADVERTISES is exercised with a genuine encryptor of that very algorithm
+	// (the list is read from the real Metadata() / MetadataWithSLO(), not hard-coded).
+	extras["C11"] = append(extras["C11"], func(c *Ctx) {
+		w := getWorld()
+		sp := &saml2.SAMLServiceProvider{ServiceProviderIssuer: "https://sp.example.com/metadata", AssertionConsumerServiceURL: acsURL, ServiceProviderSLOURL: sloURL,
+			SPKeyStore: w.SPEnc.KeyStore(), Clock: dsig.NewFakeClockAt(baseNow)}
+		seen := map[string]bool{}
+		var algs []string
+		for variant := 0; variant < 2; variant++ {
+			var md *types.EntityDescriptor
+			var err error
+			if variant == 0 {
+				md, err = sp.Metadata()
+			} else {
+				md, err = sp.MetadataWithSLO(24)
+			}
+			if err != nil || md == nil || md.SPSSODescriptor == nil {
+				continue
+			}
+			for _, kd := range md.SPSSODescriptor.KeyDescriptors {
+				for _, m := range kd.EncryptionMethods {
+					if !seen[m.Algorithm] {
+						seen[m.Algorithm] = true
+						algs = append(algs, m.Algorithm)
+					}
+				}
+			}
+		}
+		for _, alg := range algs {
+			for _, n := range []int{0, 1, 7, 8, 15, 16, 17, 24, 31, 32, 33, 100} {
+				plain := make([]byte, n)
+				for i := range plain {
+					plain[i] = byte(1 + c.R.Intn(255))
+				}
+				var data, sym []byte
+				switch alg {
+				case types.MethodTripleDESCBC:
+					sym = make([]byte, 24)
+					rand.Read(sym)
+					blk, err := des.NewTripleDESCipher(sym)
+					if err != nil {
+						continue
+					}
+					pad := 8 - n%8
+					buf := append(append([]byte{}, plain...), make([]byte, pad)...)
+					buf[len(buf)-1] = byte(pad)
+					iv := make([]byte, 8)
+					rand.Read(iv)
+					out := make([]byte, len(buf))
+					cipher.NewCBCEncrypter(blk, iv).CryptBlocks(out, buf)
+					data = append(iv, out...)
+				case types.MethodAES128GCM, types.MethodAES192GCM, types.MethodAES256GCM, types.MethodAES128CBC, types.MethodAES256CBC:
+					sym = make([]byte, keyLen(alg))
+					rand.Read(sym)
+					data = symEncrypt(alg, sym, plain, 0x5a)
+				default:
+					c.Violate("spec", "advertised:unknown-method", "metadata advertises an encryption method the harness has no genuine encryptor for: "+alg, map[string]interface{}{"algorithm": alg})
+					continue
+				}
+				eo := EncOpts{DataAlg: alg, Transport: transports[c.R.Intn(len(transports))], To: w.SPEnc, Detached: c.R.Intn(2) == 0}
+				eaEl := encryptedAssertionWith(data, wrapKey(eo, sym), eo, "saml")
+				ea := &types.EncryptedAssertion{}
+				if err := saml2.VerifXMLUnmarshalElement(eaEl, ea); err != nil {
+					continue
+				}
+				cert := w.SPEnc.TLS()
+				c.Eval(true, fmt.Sprintf("advertised|%s|%d", alg, n))
+				c.Count("advertised-method:" + alg[strings.LastIndex(alg, "#")+1:])
+				replay := map[string]interface{}{"op": "DecryptBytes on a ciphertext made with an algorithm the SP metadata advertises", "algorithm": alg, "plaintext_hex": fmt.Sprintf("%x", plain), "transport": eo.Transport}
+				func() {
+					defer func() {
+						if x := recover(); x != nil {
+							c.Violate("panic", "advertised:panic", fmt.Sprintf("DecryptBytes panicked (%v) for advertised method %s", x, alg), replay)
+						}
+					}()
+					out, err := ea.DecryptBytes(&cert)
+					if err != nil || string(out) != string(plain) {
+						c.Violate("spec", "advertised:not-decryptable", fmt.Sprintf("the SP advertises %s but does not recover a %d-byte plaintext encrypted with it: %v", alg, n, err), replay)
+					}
+				}()
+			}
+		}
+	})
+}
+
+func init() {
+	// C13: the certificate published as "signing" key in BOTH metadata variants verifies what the SP signs, with distinct
+	// signing and encryption keys configured by field or by setter.
+	extras["C13"] = append(extras["C13"], func(c *Ctx) {
+		keyE := newCert("sp-enc-x", rsaKey("spenc"), certNB, certNA)
+		keyS := newCert("sp-sign-x", rsaKey("spsign"), certNB, certNA)
+		n := c.N(24, 240)
+		for k := 0; k < n; k++ {
+			r := c.R
+			sp := &saml2.SAMLServiceProvider{IdentityProviderSSOURL: "https://idp.example.com/sso", IdentityProviderSLOURL: "https://idp.example.com/slo",
+				ServiceProviderIssuer: "https://sp.example.com/metadata", AssertionConsumerServiceURL: acsURL, ServiceProviderSLOURL: sloURL,
+				SignAuthnRequests: true, Clock: dsig.NewFakeClockAt(baseNow)}
+			cfg := r.Intn(4)
+			switch cfg {
+			case 0:
+				sp.SPKeyStore, sp.SPSigningKeyStore = keyE.KeyStore(), keyS.KeyStore()
+			case 1:
+				sp.SetSPKeyStore(&saml2.KeyStore{Signer: keyE.Key, Cert: keyE.DER})
+				sp.SetSPSigningKeyStore(&saml2.KeyStore{Signer: keyS.Key, Cert: keyS.DER})
+			case 2:
+				sp.SPKeyStore = keyE.KeyStore()
+				sp.SetSPSigningKeyStore(&saml2.KeyStore{Signer: keyS.Key, Cert: keyS.DER})
+			default:
+				sp.SetSPKeyStore(&saml2.KeyStore{Signer: keyE.Key, Cert: keyE.DER})
+				sp.SPSigningKeyStore = keyS.KeyStore()
+			}
+			c.Eval(true, fmt.Sprintf("published-signing-key|%d", cfg))
+			c.Count(fmt.Sprintf("c13:published-key-config=%d", cfg))
+			var doc *etree.Document
+			var err error
+			kind := r.Intn(3)
+			switch kind {
+			case 0:
+				doc, err = sp.BuildAuthRequestDocument()
+			case 1:
+				doc, err = sp.BuildLogoutRequestDocument("user@example.com", "_s1")
+			default:
+				doc, err = sp.BuildLogoutResponseDocument(statusOK, "_req1")
+			}
+			if err != nil {
+				continue
+			}
+			raw, _ := doc.WriteToBytes()
+			for variant := 0; variant < 2; variant++ {
+				var md *types.EntityDescriptor
+				if variant == 0 {
+					md, err = sp.Metadata()
+				} else {
+					md, err = sp.MetadataWithSLO(24)
+				}
+				if err != nil || md == nil || md.SPSSODescriptor == nil {
+					continue
+				}
+				var pub string
+				for _, kd := range md.SPSSODescriptor.KeyDescriptors {
+					if kd.Use == "signing" && len(kd.KeyInfo.X509Data.X509Certificates) == 1 {
+						pub = kd.KeyInfo.X509Data.X509Certificates[0].Data
+					}
+				}
+				replay := map[string]interface{}{"op": "signed message vs the signing certificate published in metadata", "key_config": cfg, "metadata_variant": variant, "message": string(raw)}
+				if pub != keyS.B64() {
+					c.Violate("spec", "published-signing-cert", "the certificate published with use=\"signing\" is not the configured signing certificate", replay)
+					continue
+				}
+				d2 := etree.NewDocument()
+				if d2.ReadFromBytes(raw) != nil {
+					continue
+				}
+				vctx := dsig.NewDefaultValidationContext(certStore(keyS))
+				vctx.Clock = dsig.NewFakeClockAt(baseNow)
+				if _, verr := vctx.Validate(d2.Root()); verr != nil {
+					c.Violate("spec", "signature-does-not-verify:published-cert", "a signed message does not verify with the published signing certificate: "+verr.Error(), replay)
+				}
+			}
+		}
+	})
+
+	// C15: every request reflects the CURRENT configuration, also when the configuration is changed in place between two
+	// builds on the same SP (RequestedAuthnContext edited through the same pointer, strings re-assigned).
+	extras["C15"] = append(extras["C15"], func(c *Ctx) {
+		n := c.N(40, 400)
+		for k := 0; k < n; k++ {
+			r := c.R
+			rac := &saml2.RequestedAuthnContext{Comparison: "exact", Contexts: []string{"urn:oasis:names:tc:SAML:2.0:ac:classes:Password"}}
+			sp := &saml2.SAMLServiceProvider{IdentityProviderSSOURL: "https://idp.example.com/sso", IdentityProviderSLOURL: "https://idp.example.com/slo",
+				ServiceProviderIssuer: "https://sp.example.com/metadata", AssertionConsumerServiceURL: acsURL, NameIdFormat: saml2.NameIdFormatPersistent,
+				RequestedAuthnContext: rac, Clock: dsig.NewFakeClockAt(baseNow)}
+			for step := 0; step < 3; step++ {
+				if step > 0 {
+					switch r.Intn(4) {
+					case 0:
+						rac.Comparison = pick(r, "minimum", "maximum", "better")
+					case 1:
+						rac.Contexts = append(rac.Contexts, fmt.Sprintf("urn:ctx:%d", step))
+					case 2:
+						rac.Contexts[0] = fmt.Sprintf("urn:changed:%d", step)
+					default:
+						sp.AssertionConsumerServiceURL = fmt.Sprintf("https://sp.example.com/acs%d", step)
+						sp.NameIdFormat = pick(r, saml2.NameIdFormatTransient, saml2.NameIdFormatEmailAddress)
+					}
+				}
+				doc, err := sp.BuildAuthRequestDocumentNoSig()
+				if err != nil {
+					continue
+				}
+				c.Eval(step > 0, fmt.Sprintf("in-place-reconfiguration|%d", step))
+				c.Count("c15:in-place-reconfiguration")
+				root := doc.Root()
+				replayDoc, _ := doc.WriteToString()
+				replay := map[string]interface{}{"op": "BuildAuthRequestDocumentNoSig after in-place re-configuration", "step": step, "document": replayDoc}
+				bad := func(what string) {
+					c.Violate("spec", "value-not-recovered:history:"+what, "the AuthnRequest does not reflect the current configuration ("+what+") after the configuration was changed between two builds", replay)
+				}
+				if root.SelectAttrValue("AssertionConsumerServiceURL", "") != sp.AssertionConsumerServiceURL {
+					bad("AssertionConsumerServiceURL")
+				}
+				var racEl, pol *etree.Element
+				for _, ch := range root.ChildElements() {
+					if ch.Tag == "RequestedAuthnContext" {
+						racEl = ch
+					}
+					if ch.Tag == "NameIDPolicy" {
+						pol = ch
+					}
+				}
+				if pol == nil || pol.SelectAttrValue("Format", "") != sp.NameIdFormat {
+					bad("NameIDPolicy Format")
+				}
+				if racEl == nil || racEl.SelectAttrValue("Comparison", "") != rac.Comparison {
+					bad("RequestedAuthnContext Comparison")
+				} else {
+					var got []string
+					for _, ch := range racEl.ChildElements() {
+						got = append(got, ch.Text())
+					}
+					if strings.Join(got, "\x00") != strings.Join(rac.Contexts, "\x00") {
+						bad("AuthnContextClassRef list")
+					}
+				}
+			}
+		}
+	})
+}
+
+func init() {
+	// C02 also runs the correspondence stream of the goxmldsig model (Dsig.v), on which its certificate-rule theorems rest
+	extras["C02"] = append(extras["C02"], func(c *Ctx) {
+		if run, ok := runners["DSIG"]; ok {
+			rule := c.Rep.Rule
+			run(c)
+			c.Rep.Rule = rule + " || DSIG stream: " + c.Rep.Rule
 		}
 	})
 }
